@@ -1,5 +1,6 @@
 import GbVerif.Model.Cache
 import GbVerif.Model.X86Wf
+import GbVerif.Model.JitIp
 import GbVerif.Proofs.Enum
 /-!
 C01 — translated blocks have the same architectural effect as the interpreter.
@@ -39,5 +40,33 @@ theorem host_frame_symmetric :
     (decodeCode Gen.emitBlockEnd).map (fun c => c.map (·.2)) = some [.pop 7, .jmpReg 7] ∧
     ((decodeCode Gen.emitEpilogue).map fun c => c.getLast?.map (·.2)) = some (some .ret) := by
   decide +kernel
+
+
+/-! ### program-counter bookkeeping of translated code -/
+
+/-- for one unprefixed encoding that does not end its block: along every path through the emitted code, r13 (the guest
+PC) is touched only by `add r13, imm8` and the immediates add up to the instruction's encoded length -/
+def ipOkOp (b0 : Nat) : Bool :=
+  let t := Gen.emitOp b0
+  if t.isEmpty then true else
+  let (op, len, _) := Gen.decode b0 0 0
+  if Gen.isBlockEnd op then true else JitIp.jitIp t == some [len]
+
+def ipOkCb (b1 : Nat) : Bool :=
+  let (_, len, _) := Gen.decode 0xcb b1 0
+  JitIp.jitIp (Gen.emitCb b1) == some [len]
+
+/-- **ip_advance**: every translated instruction that does not end its block advances the guest PC by exactly its
+encoded length, on every path through its code, and writes the PC register in no other way (all 501 encodings; the
+tables are regenerated from the emitter and the decoder on every run) -/
+theorem ip_advance_unprefixed : ∀ b0, b0 < 2^8 → ipOkOp b0 = true :=
+  forall_lt_of_allRange ipOkOp 8 (by decide +kernel)
+
+theorem ip_advance_cb : ∀ b1, b1 < 2^8 → ipOkCb b1 = true :=
+  forall_lt_of_allRange ipOkCb 8 (by decide +kernel)
+
+/-- non-vacuity: `LD A,n` is such an instruction and advances by 2; `JR NZ` ends its block and is exempt -/
+example : Gen.isBlockEnd (Gen.decode 0x3e 0 0).1 = false ∧ JitIp.jitIp (Gen.emitOp 0x3e) = some [2] ∧
+    Gen.isBlockEnd (Gen.decode 0x20 0 0).1 = true := by decide +kernel
 
 end GbVerif.C01
